@@ -209,6 +209,30 @@ func c08Accessors(c *ctx) {
 			}
 		}
 	}
+	// days the library's own case analysis singles out: the leap days 4 and 8 years before every century year that
+	// is not a leap year (whole-year stepping from them), and the turn of the year in and after the years at the
+	// ends of its leap-11/12 tables (whose month lists must agree with their neighbours')
+	for cy := 1700; cy <= 9900; cy += 100 {
+		if cy%400 != 0 {
+			days = append(days, [3]int{cy - 4, 2, 29}, [3]int{cy - 8, 2, 29})
+		}
+	}
+	for _, tab := range [][]int{calendar.LEAP_11, calendar.LEAP_12} {
+		for _, k := range []int{0, len(tab) - 2, len(tab) - 1} {
+			if k < 0 || k >= len(tab) {
+				continue
+			}
+			for _, y := range []int{tab[k], tab[k] + 1} {
+				if y < 1 || y > 9998 {
+					continue
+				}
+				for _, md := range [][2]int{{1, 1}, {1, 8}, {1, 15}, {1, 22}, {1, 29}, {2, 5}, {2, 12}, {2, 19}, {12, 3}, {12, 10}, {12, 17}, {12, 24}, {12, 31}} {
+					days = append(days, [3]int{y, md[0], md[1]})
+				}
+			}
+		}
+	}
+	nd += len(days)
 	for len(days) < nd {
 		y := 1 + c.rng.Intn(9998)
 		if c.rng.Intn(2) == 0 {
